@@ -901,7 +901,7 @@ LEVEL_TEXT = ("Machine-checked theorems (Coq 8.16, closed under the global conte
               "exactly when the command does not declare the requiredness (witness: required = false on a plain field); and "
               "for every well-formed invocation of the update command of a struct of argument fields, a field whose argument "
               "has no default and no occurrence ON THE LINE keeps its value under try_update_from; the command-line phase accepts "
-              "the printed line when every printed group passes the built argument's own count check and value parser.  Round 3: the phases after the token loop accept that state -- the defaults phase succeeds (any command whose defaults pass their value parser), the validator is complete for commands without relations (any command of class norel, through C03's static completeness), hence parse(print v) = Ok v as an EQUALITY (derived_parse d (bin :: print d v) = PValue v) for structs of option fields whose required fields are printed; and for ALL argv: a walk of get_matches_with parametric in the state predicate, the invariant that stored value groups are non-empty (any command), hence extraction cannot fail after a successful command parse and try_parse succeeds <=> the command's parse succeeds, for every struct of argument fields (options and positionals) and flattened structs (any nesting, optional or not; generated command in closed form) in which each plain field is required or has a default (through C04's typed invariant, C03's validator soundness and C06's precedence); and for every token list, a field whose argument has no default and is named by no token (C10's occurs: key-map selection) keeps its value under try_update_from; the generated command of any struct of fields and flattened structs, positionals included, lies in C02's class conv and its key map is the derive input's (the k-th positional field in declaration order resolves from index k); and parse(print v) = Ok v as an equality for structs of positional fields (T, Option<T>, a last Vec<T>; the line `-- v1 v2 ..` through C02's trailing-values theorem) when an absent positional is followed only by absent ones.  Round 5: a derived ValueEnum field's parser in the model is the real EnumValueParser (the parser model's possible-values parser over the non-skipped variants, hidden ones included, under the argument's ignore_case; the stand-in and the separate enum check are gone from derived_parse): its language is exactly the domain of ValueEnum::from_str and of C04's parse_ref model; names and aliases of hidden variants are accepted and read as their variant (and the parser that filters hidden variants first is refuted); nothing a kept variant does not claim is accepted and nothing is read as a skipped variant; names <-> kept variants is a bijection modulo aliases; the generated argument carries that parser coherently, so C04's stored-value theorems apply to derived fields; every successful parse of the generated command stores only enum names for enum fields (all argv); and parse(print v) = Ok v for enum-typed fields of every option shape; default_action gives SetTrue exactly for a field declared bool (Option<bool> / Option<Option<bool>> are Set with the bool parser and no default), structs of such fields round-trip with no hypothesis on the value, and for ALL argv a field whose argument has no default and is named by no token comes back with its absent value (None for Option<T>, Option<bool> included; the empty vector for Vec<T>); and try_update_from on an Option<flattened struct> that is already Some updates the members in place: for all argv a member without default that no token names keeps its value and the flatten stays Some (lookup through present optional flattens).  The model is tied to clap_derive by compiling a corpus spanning the shape x kind x type x "
+              "the printed line when every printed group passes the built argument's own count check and value parser.  Round 3: the phases after the token loop accept that state -- the defaults phase succeeds (any command whose defaults pass their value parser), the validator is complete for commands without relations (any command of class norel, through C03's static completeness), hence parse(print v) = Ok v as an EQUALITY (derived_parse d (bin :: print d v) = PValue v) for structs of option fields whose required fields are printed; and for ALL argv: a walk of get_matches_with parametric in the state predicate, the invariant that stored value groups are non-empty (any command), hence extraction cannot fail after a successful command parse and try_parse succeeds <=> the command's parse succeeds, for every struct of argument fields (options and positionals) and flattened structs (any nesting, optional or not; generated command in closed form) in which each plain field is required or has a default (through C04's typed invariant, C03's validator soundness and C06's precedence); and for every token list, a field whose argument has no default and is named by no token (C10's occurs: key-map selection) keeps its value under try_update_from; the generated command of any struct of fields and flattened structs, positionals included, lies in C02's class conv and its key map is the derive input's (the k-th positional field in declaration order resolves from index k); and parse(print v) = Ok v as an equality for structs of positional fields (T, Option<T>, a last Vec<T>; the line `-- v1 v2 ..` through C02's trailing-values theorem) when an absent positional is followed only by absent ones.  Round 5: a derived ValueEnum field's parser in the model is the real EnumValueParser (the parser model's possible-values parser over the non-skipped variants, hidden ones included, under the argument's ignore_case; the stand-in and the separate enum check are gone from derived_parse): its language is exactly the domain of ValueEnum::from_str and of C04's parse_ref model; names and aliases of hidden variants are accepted and read as their variant (and the parser that filters hidden variants first is refuted); nothing a kept variant does not claim is accepted and nothing is read as a skipped variant; names <-> kept variants is a bijection modulo aliases; the generated argument carries that parser coherently, so C04's stored-value theorems apply to derived fields; every successful parse of the generated command stores only enum names for enum fields (all argv); and parse(print v) = Ok v for enum-typed fields of every option shape; default_action gives SetTrue exactly for a field declared bool (Option<bool> / Option<Option<bool>> are Set with the bool parser and no default), structs of such fields round-trip with no hypothesis on the value, and for ALL argv a field whose argument has no default and is named by no token comes back with its absent value (None for Option<T>, Option<bool> included; the empty vector for Vec<T>); and try_update_from on an Option<flattened struct> that is already Some updates the members in place: for all argv a member without default that no token names keeps its value and the flatten stays Some (lookup through present optional flattens), also along every sequence of updates; and for all argv an Option<flattened struct> none of whose members is named by a token parses to None.  The model is tied to clap_derive by compiling a corpus spanning the shape x kind x type x "
               "attribute matrix with the real macro and comparing command dumps, parses, round trips, update sequences "
               "and value-enum lookups against the extracted model (which runs on top of the parser model) on every check; "
               "an independent python oracle checks the property's statements on the implementation's output.")
